@@ -18,6 +18,7 @@ const maxPaths = 4000
 
 // Exec verifies one function (with inlined callees) against its contract.
 type Exec struct {
+	selBlocking string // "true"/"false" while the at-clauses of a select run
 	prog   *Program
 	cs     *Contracts
 	fn     *ssa.Function
